@@ -7,8 +7,8 @@ PID = "C14"
 
 def sig_of(e):
     c = e["c"]
-    return "case=%s|%s|req%d|gr%d|%s|skew%d|allow%d|opts=%s:status=%s,ran=%s" % (
-        c["hdr"], c["ver"], len(c["req"]), len(c["granted"]), c["exp"], c["skew"], int(c["allow"]), c["opts"],
+    return "case=%s|%s|req%d|gr%d%s|%s|skew%d|allow%d|opts=%s:status=%s,ran=%s" % (
+        c["hdr"], c["ver"], len(c["req"]), len(c["granted"]), "dup" if c.get("dup") else "", c["exp"], c["skew"], int(c["allow"]), c["opts"],
         e["o"]["status"], int(e["o"]["ran"]))
 
 
